@@ -51,8 +51,8 @@ AllBits == Bits
 \* carries still denotes its own bit ("the digit names are always available")
 TBitsNamed(tab, c) == {b \in Bits : tab[b + 1].name = c}
 TDenotes(tab, c) ==
-    IF TBitsNamed(tab, c) # {} THEN TBitsNamed(tab, c)
-    ELSE {b \in Bits : DigitName[b + 1] = c}
+    LET named == TBitsNamed(tab, c)
+    IN IF named # {} THEN named ELSE {b \in Bits : DigitName[b + 1] = c}
 Denotes(defs, c) == TDenotes(TableOf(defs), c)
 
 \* a definition set is *well-formed* when no two bits carry the same name
